@@ -196,4 +196,24 @@ Proof. intro Hi. rewrite blk_get_sub, !blk_get_col by lia. reflexivity. Qed.
 (* RIGHT multiplication does NOT preserve the shape in general -- which is why the embedding is only
    claimed for the smoothers (left products); see the Example in Properties_C06.v. *)
 
+(* combined statements (Properties_C06.v) *)
+Theorem blk_embed_central_cells (c : S0) (x : blk) :
+  blk_mul S0 b (blk_embed S0 b c) x = blk_mul S0 b x (blk_embed S0 b c) /\
+  forall i j, i < b -> j < b -> blk_get (blk_mul S0 b (blk_embed S0 b c) x) i j = c * blk_get x i j.
+Proof. split; [apply blk_embed_central|apply blk_embed_mul_l]. Qed.
+
+Theorem is_col_closed (a x y : blk) : is_col x -> is_col y ->
+  is_col (blk_add S0 b x y) /\ is_col (blk_sub S0 b x y) /\ is_col (blk_neg S0 b x) /\
+  is_col (blk_mul S0 b a x) /\
+  (forall (v : vec S0) i, i < b ->
+     blk_get (blk_mul S0 b a (blk_col S0 b v)) i 0 = sumn (fun k => blk_get a i k * vget v k) b).
+Proof.
+  intros Hx Hy. repeat split.
+  - apply is_col_add; assumption.
+  - apply is_col_sub; assumption.
+  - apply is_col_neg; assumption.
+  - apply is_col_mul_l; assumption.
+  - apply blk_mul_col.
+Qed.
+
 End BlockRing.
